@@ -122,9 +122,14 @@ def denotes(src, target, path, problems, part):
             xyz, _shells, ca, cb, _nindep = wfreaders.fchk_model(table)
             bv_file = wfreaders.fchk_basis_at(table, gto.PROBE_POINTS)
         else:
-            table = wfreaders.read_wfn(text) if target == "wfn" else wfreaders.read_wfx(text)
-            xyz = table["xyz"]
-            v_file = wfreaders.primitive_orbitals_at(table, gto.PROBE_POINTS)
+            if target == "molden":
+                table = wfreaders.read_molden(text)
+                xyz = table["xyz"]
+                v_file = wfreaders.molden_orbitals_at(table, gto.PROBE_POINTS)
+            else:
+                table = wfreaders.read_wfn(text) if target == "wfn" else wfreaders.read_wfx(text)
+                xyz = table["xyz"]
+                v_file = wfreaders.primitive_orbitals_at(table, gto.PROBE_POINTS)
     except wfreaders.Unsupported as exc:
         part.outcome("independent-reader", f"{target}:not-judged:{str(exc).split(' ')[0]}")
         return
@@ -231,7 +236,7 @@ def run_case(part, src, target, allow, info, tmp, tag):
             problems.append(("announced", f"returned object {'differs from' if out is not src else 'is'} the argument but PrepareDumpWarning issued={warned}"))
     elif out is not src:
         problems.append(("announced", "allow_changes=False but a different object was written"))
-    if target in ("fchk", "wfn", "wfx"):
+    if target in ("fchk", "wfn", "wfx", "molden"):
         try:
             denotes(src, target, path, problems, part)
         except Exception as exc:  # noqa: BLE001
